@@ -68,6 +68,28 @@ def gen_ts(rng):
         rng.below(1000), sign, hh, mm)).encode()
 
 
+def submillisecond_timestamp_check(ctx, reports):
+    """The header records the scan start with sub-millisecond precision in memory; the text format shows milliseconds and the
+    reader / the dedupe guard (`modified_before`) rely on the printed value never being LATER than the real one: it is the
+    truncation of the time stamp.  The writer is run on time stamps with a sub-millisecond part (1 ns, 0.5 ms, 0.999999 ms): the
+    printed text must be the millisecond text the time stamp was built from."""
+    for nanos in (1, 500000, 999999):
+        env = dict(os.environ, HARNESS_TS_SUBMS_NANOS=str(nanos))
+        outs = core.run_lines_parallel(TXT, [w_line(r) for r in reports], env=env)
+        for r, o in zip(reports, outs):
+            ctx.count()
+            ctx.bump("header_timestamp_sub_millisecond_nanos", nanos)
+            if o.startswith("EXN"):
+                continue
+            if (b"# Timestamp: " + r["ts"] + b"\n") not in unfield(o):
+                got = [l for l in unfield(o).split(b"\n") if l.startswith(b"# Timestamp:")][:1]
+                ctx.violation({"kind": "timestamp_not_truncated"},
+                              "a scan start %d ns after %s is printed as %r: later than the real time stamp (the text format must truncate)" % (
+                                  nanos, r["ts"].decode(), got), {"report": _jsonable(r), "lines": [w_line(r)], "env": {"HARNESS_TS_SUBMS_NANOS": nanos}},
+                              found_input=True)
+                return
+
+
 def gen_report(rng, small=False):
     version = ("%d.%d.%d" % (rng.below(3), rng.below(40), rng.below(12))).encode()
     ncmd = rng.below(3 if small else 6)
@@ -289,6 +311,7 @@ def run(ctx):
             for n, b in tab.items():
                 if not b or any(c < 32 or c > 126 or c in b"*):" for c in b):
                     oracle.append(("hypothesis_human", "ByteSize text of %d is %r" % (n, b), {"n": n, "text": list(b), "lines": ["hs %d" % n]}))
+        submillisecond_timestamp_check(ctx, reports[:ctx.pick(60, 400)])
         wl = [w_line(r) for r in reports]
         wimpl, _ = compare(wl, None, [w_line(r, tab) for r, tab in zip(reports, tables)])
         rl = ["r " + o for o in wimpl]
